@@ -178,6 +178,8 @@ def _leaf(node):
     a = P.arrays(node)
     if k in ("Dense", "Generic", "Triangular"):
         M = _wide(a["A"])
+        if k == "Dense" and node.get("int_dtype"):  # integer-valued payload handed to cola in an integer dtype
+            return Ref(M, np.abs(M), np.int64, float(np.finfo(np.float64).eps))
         return Ref(M, np.abs(M), a["A"].dtype)
     if k == "Sparse":
         m, n = a["shape"]
@@ -256,7 +258,8 @@ def truth(M, tol=1e-9):
 
 # ---- helpers shared by the monitors -----------------------------------------------------------
 def eps_of(dtype):
-    return float(np.finfo(np.dtype(dtype)).eps)
+    dtype = np.dtype(dtype)
+    return float(np.finfo(dtype).eps) if dtype.kind in "fc" else 0.0  # (integer results are exact)
 
 
 def close(got, ref, bound, dtype, c=1000.0, eps=None):
